@@ -1,10 +1,10 @@
 INIT MutInit
 NEXT MutNext
 CONSTANTS
-  Formats = {"rtmpchunk", "rtmpmsg", "amf0", "flv", "flvtag", "aac", "avc", "ws", "jws", "jwe", "jwk", "ocspresp", "ocspreq", "jsonplus"}
+  Formats = {"rtmpchunk", "rtmpmsg", "amf0", "flv", "flvtag", "aac", "avc", "ws", "jws", "jwe", "jweforge", "jwk", "ocspresp", "ocspreq", "jsonplus"}
   SeedCap = 100
   MaxMut = 1
-  Ops1 = {"trunc", "set", "ins", "drop", "dup", "splice", "nest", "field", "header", "tlv", "random"}
+  Ops1 = {"trunc", "set", "ins", "drop", "dup", "splice", "nest", "field", "header", "tlv", "random", "restate", "forge"}
   Ops2 = {}
   NestDepths = {1, 2, 16, 256}
   SpliceWindow = 8
@@ -14,6 +14,8 @@ CONSTANTS
   SpliceOther = FALSE
   RandLens = {0, 1, 2, 3, 7, 64, 1000, 65536}
   NRand = 2
+  InnerNodeIdx = {0, 1, 2, 3, 4, 5, 6, 7, 8, 9, 10, 11, 12, 13, 14, 15, 16, 17, 18, 19, 20, 21, 22, 23, 24, 25, 26, 27, 28, 29, 30, 31, 32, 33, 34, 35, 36, 37, 38, 39, 40, 41, 42, 43, 44, 45, 46, 47, 48, 49, 50, 51, 52, 53, 54, 55, 56, 57, 58, 59, 60, 61, 62, 63}
+  ForgeAlgs = {"dir", "A128KW", "A256GCMKW", "RSA-OAEP", "RSA1_5", "ECDH-ES", "ECDH-ES+A192KW"}
   NodeIdx = {}
   ByteOpsAllSeeds = FALSE
   PanicOnForbidden = FALSE
